@@ -109,3 +109,156 @@ Example diff_apply_fresh_example :
   | _ => False
   end.
 Proof. vm_compute. repeat split; reflexivity. Qed.
+
+(** ------------------------------------------------------------------------------------------
+    C11 composed with C01 at Coq level (Compose/DiffApply.v, Compose/RealDifferProofs.v).
+
+    [real_differ shash heqb bs maxData olds pref data] is C11's model of the real differ
+    (CreateSignature of every old file, NewBlockLibrary, ComputeDiff of [data] with preferred
+    file index [pref]; Wsync/Spec.v [diff_ops]) seen through pwr/diff.go's makeOpsWriter
+    ([tr_op]: ranges keep their three numbers, a data span of the source becomes its bytes).
+    It has the type of C01's abstract [differ], so [write_patch (real_differ ...)] is WritePatch
+    with the real differ, preferred index ([preferred_index], the path lookup of diff.go)
+    included.  C11's block size, indices and spans are [N], C01's are [Z]; bytes are [N] in both. *)
+From Wharf Require Import Compose.DiffApply Compose.RealDifferProofs.
+From Wharf Require Wsync.Diff Wsync.Apply Wsync.Spec Wsync.ApplyProofs Wsync.Theorems.
+
+(** wsync.ApplySingleFull on a block range was modelled twice (C11: [Wsync.Apply.apply_op],
+    C01: the bytes [Patcher.apply_range] writes).  The two agree on EVERY range, in bounds or
+    not (same opSize / lastSize arithmetic, same seek, same short read at EOF) ... *)
+Theorem apply_single_models_agree :
+  forall (bs : Z) (olds : list (list byte)) (f i sp : N),
+    0 < bs ->
+    Wsync.Apply.apply_op (Z.to_N bs) olds (Wsync.Apply.CRange f i sp) =
+    option_map (fun d => slice d (bs * Z.of_N i) (op_size bs (Z.of_nat (length d)) (Z.of_N i) (Z.of_N sp)))
+               (znth olds (Z.of_N f)).
+Proof. exact apply_op_agrees. Qed.
+Print Assumptions apply_single_models_agree.
+
+Theorem apply_range_models_agree :
+  forall (bs : Z) (oldC : container) (olds : list (list byte)) (w : wst) (f i sp : N) (d : list byte) (pf : path),
+    0 < bs -> znth (c_files oldC) (Z.of_N f) = Some (pf, Z.of_nat (length d)) -> znth olds (Z.of_N f) = Some d ->
+    exists x, Wsync.Apply.apply_op (Z.to_N bs) olds (Wsync.Apply.CRange f i sp) = Some x /\
+      apply_range bs oldC olds w (Z.of_N f) (Z.of_N i) (Z.of_N sp) =
+      w_write (mkW (ev (ev (w_st w) (EvSize (Z.of_N f))) (EvRead (Z.of_N f))) (w_path w) (w_off w)) x.
+Proof. exact apply_range_agrees. Qed.
+Print Assumptions apply_range_models_agree.
+
+(** ... and on in-bounds operations C11's [apply_ops] (ApplyPatch) of the differ's operations
+    is C01's [replay] of their translation *)
+Theorem replay_agrees_with_wsync_apply :
+  forall (bs : Z) (olds : list (list byte)) (src : list byte) (ops : list Wsync.Diff.op),
+    0 < bs -> Forall (Wsync.Spec.range_ok (Z.to_N bs) olds) ops -> Forall (Wsync.ApplyProofs.data_ok src) ops ->
+    Wsync.Apply.apply_ops (Z.to_N bs) olds (map (Wsync.Spec.conc src) ops) = Some (replay bs olds (map (tr_op src) ops)).
+Proof. exact replay_agrees_apply_ops. Qed.
+Print Assumptions replay_agrees_with_wsync_apply.
+
+(** C01's hypothesis about its abstract differ, for one (preferred index, new file), holds of the
+    real differ under C11's hypothesis for that file: at least one operation (an empty file
+    yields exactly one empty data operation: the trailing-data enqueue of an empty buffer, let
+    through by the operation cleaner because nothing was sent before), the operations replay to
+    the file, every range is in bounds *)
+Theorem real_differ_ok_per_file :
+  forall (H : Type) (shash : list N -> H) (heqb : H -> H -> bool) (bs : Z) (maxData : N) (olds : list (list byte)),
+    0 < bs -> (0 < maxData)%N -> (forall x y, heqb x y = true -> x = y) ->
+  forall (pref : Z) (data : list byte),
+    Wsync.Spec.strong_injective shash (Z.to_N bs) olds data ->
+    real_differ shash heqb bs maxData olds pref data <> [] /\
+    replay bs olds (real_differ shash heqb bs maxData olds pref data) = data /\
+    Forall (range_ok bs olds) (real_differ shash heqb bs maxData olds pref data).
+Proof. exact real_differ_ok_at. Qed.
+Print Assumptions real_differ_ok_per_file.
+
+(** hence [diff_ok] (which quantifies over every preferred index and every file content) *)
+Theorem diff_ok_of_real_differ :
+  forall (H : Type) (shash : list N -> H) (heqb : H -> H -> bool) (bs : Z) (maxData : N) (olds : list (list byte)),
+    0 < bs -> (0 < maxData)%N -> (forall x y, heqb x y = true -> x = y) ->
+    (forall data, Wsync.Spec.strong_injective shash (Z.to_N bs) olds data) ->
+    diff_ok bs olds (real_differ shash heqb bs maxData olds).
+Proof. exact diff_ok_of_real_differ_lemma. Qed.
+Print Assumptions diff_ok_of_real_differ.
+
+(** END TO END, no [diff_ok] hypothesis: for every block size and data-op limit > 0, every old
+    build, every well-formed new build (sizes fitting int64), if the strong hash separates the
+    blocks of the old build from the windows of each file of the new build (C11's hypothesis,
+    needed only for the files WritePatch actually diffs), then applying the patch WritePatch
+    produces with the real differ to an empty directory succeeds, touches every file, and the
+    output tree IS the new build. *)
+Theorem diff_apply_fresh_end_to_end :
+  forall (H : Type) (shash : list N -> H) (heqb : H -> H -> bool)
+         (bs : Z) (maxData : N) (old new : build) (algo quality : Z),
+    0 < bs -> (0 < maxData)%N -> (forall x y, heqb x y = true -> x = y) ->
+    Forall (fun data => Wsync.Spec.strong_injective shash (Z.to_N bs) (contents_of old) data) (contents_of new) ->
+    wf_build new -> fits63 old -> fits63 new ->
+    exists t touched trace,
+      apply_patch_fresh bs (contents_of old) None
+        (write_patch (real_differ shash heqb bs maxData (contents_of old)) algo quality old new) = Ok (t, touched, trace) /\
+      touched = Z.of_nat (length (files_of new)) /\
+      forall p, tlookup t p = tlookup new p.
+Proof. exact diff_apply_fresh_end_to_end_lemma. Qed.
+Print Assumptions diff_apply_fresh_end_to_end.
+
+Theorem diff_apply_fresh_end_to_end_any_codec :
+  forall (B : Type) (encode : list frame -> B) (decode : B -> option (list frame)),
+    (forall fs, decode (encode fs) = Some fs) ->
+  forall (H : Type) (shash : list N -> H) (heqb : H -> H -> bool)
+         (bs : Z) (maxData : N) (old new : build) (algo quality : Z),
+    0 < bs -> (0 < maxData)%N -> (forall x y, heqb x y = true -> x = y) ->
+    Forall (fun data => Wsync.Spec.strong_injective shash (Z.to_N bs) (contents_of old) data) (contents_of new) ->
+    wf_build new -> fits63 old -> fits63 new ->
+    exists fs t touched trace,
+      decode (encode (write_patch (real_differ shash heqb bs maxData (contents_of old)) algo quality old new)) = Some fs /\
+      apply_patch_fresh bs (contents_of old) None fs = Ok (t, touched, trace) /\
+      forall p, tlookup t p = tlookup new p.
+Proof. exact diff_apply_fresh_end_to_end_any_codec_lemma. Qed.
+Print Assumptions diff_apply_fresh_end_to_end_any_codec.
+
+(** a tiny instance, executed (block size 2, data-op limit 3, strong hash := the block itself):
+    an unchanged file under a new path (one merged range over all blocks => Transpose), a file
+    with an insertion (range, data split at the limit, range of the short last block), an empty
+    file (one empty data op), a file whose path exists in the old build (preferred index 1),
+    a directory and a symlink; the old build has an empty file (synthetic empty block, never
+    matched).  The per-file operations, the calls the patcher makes, the resulting tree ... *)
+Definition e2e_old : build := [([1], File [1;2;3;4;5;6]); ([2], File [9;8;7]); ([7], File [])]%N.
+Definition e2e_new : build :=
+  [([5], Dir); ([5;1], File [1;2;3;4;5;6]); ([3], File [1;2;3;4;7;7;7;7;5;6]); ([4], File []); ([6], Link [65]);
+   ([2], File [7;9;8;7;9;8])]%N.
+Definition e2e_differ := real_differ (fun b : list N => b) nlist_eqb 2 3 (contents_of e2e_old).
+
+Example diff_apply_fresh_end_to_end_example :
+  map (fun f => e2e_differ (preferred_index (container_of e2e_old) (fst f)) (snd f)) (files_of e2e_new)
+  = [[OpRange 0 0 3];
+     [OpRange 0 0 2; OpData [7]; OpData [7;7;7]; OpRange 0 2 1];
+     [OpData []];
+     [OpData [7]; OpRange 1 0 1; OpData [7]; OpRange 1 0 1]]%N /\
+  match apply_patch_fresh 2 (contents_of e2e_old) None (write_patch e2e_differ 2 9 e2e_old e2e_new) with
+  | Ok (t, touched, trace) =>
+    touched = 4 /\
+    trace = [EvTranspose 0 0; EvRead 0; EvWriter 1; EvSize 0; EvRead 0; EvSize 0; EvRead 0;
+             EvWriter 2; EvWriter 3; EvSize 1; EvRead 1; EvSize 1; EvRead 1] /\
+    forallb (fun e => match tlookup t (fst e), snd e with
+                      | Some (File a), File b => nlist_eqb a b
+                      | Some Dir, Dir => true
+                      | Some (Link a), Link b => nlist_eqb a b
+                      | _, _ => false end) e2e_new = true
+  | _ => False
+  end.
+Proof. vm_compute. repeat split; reflexivity. Qed.
+
+(** ... and the theorem itself instantiated on that pair: its hypotheses hold (the identity
+    "hash" is injective), so its conclusion does, without evaluating anything *)
+Example diff_apply_fresh_end_to_end_instance :
+  exists t touched trace,
+    apply_patch_fresh 2 (contents_of e2e_old) None (write_patch e2e_differ 2 9 e2e_old e2e_new) = Ok (t, touched, trace) /\
+    touched = Z.of_nat (length (files_of e2e_new)) /\
+    forall p, tlookup t p = tlookup e2e_new p.
+Proof.
+  apply (diff_apply_fresh_end_to_end (list N) (fun b => b) nlist_eqb 2 3%N e2e_old e2e_new 2 9).
+  - reflexivity.
+  - reflexivity.
+  - exact Wsync.Theorems.nlist_eqb_sound.
+  - apply Forall_forall. intros data _. apply Wsync.Theorems.id_strong_injective.
+  - apply wf_buildb_sound. vm_compute. reflexivity.
+  - split; [vm_compute; discriminate|]. repeat constructor.
+  - split; [vm_compute; discriminate|]. repeat constructor.
+Qed.
